@@ -25,7 +25,11 @@ META = {
             "after prefetch on a sub-grid.  Every schedule within 1 scheduling deviation (2 for the small programs "
             "in thorough); bytes compared with the served file; deadlock/livelock of a call = violation.  Plus [two "
             "connections in one process] two client/server pairs serving different files, used alternately "
-            "(prefetch/read/readv): each reads its own bytes.",
+            "(prefetch/read/readv): each reads its own bytes.  Plus [extent bookkeeping seam] a real SFTPFile over a stub "
+            "client: one thread runs _prefetch_thread registering 2-3 chunks while another asks "
+            "_data_in_prefetch_requests(offset, size) (what readv() does while an earlier prefetch is still "
+            "registering): every schedule within preemption bound 2 at source-line granularity in the two functions; "
+            "the answer must equal the sequential answer on some prefix of the registrations, no exception.",
     "note": "delay bounding: every departure from the deterministic default schedule costs 1; atomicity = "
             "synchronisation/socket operations; the spin-wait in SFTPFile._async_response is given a fair lock (a "
             "spinning thread yields); virtual time; server honest apart from short reads",
@@ -418,6 +422,109 @@ def jscn(scn):
                      for op in scn["prog"]]}
 
 
+# ------------------------------------------------------------------ extent bookkeeping at line granularity
+# readv() decides which chunks still have to be requested by looking at the requests a (possibly still
+# running) earlier prefetch thread has registered: _data_in_prefetch_requests (caller) reads the table that
+# _prefetch_thread fills.  Narrow seam: a real SFTPFile over a stub SFTP client whose _async_request only
+# hands out request numbers; thread A registers 2-3 chunks, thread B asks whether (offset, size) is covered.
+# Every schedule within preemption bound 2 at source-line granularity inside the two functions.  Oracle
+# (linearisability against the sequential function): B's answer must be the answer the same question gets
+# on SOME prefix of A's registrations (0..n chunks registered), and neither thread may raise.
+import paramiko.sftp_file as psftp_file
+from paramiko.sftp_file import SFTPFile
+from vmc import vthreading
+
+EXT_TRACE = {psftp_file.__file__: {"_data_in_prefetch_requests", "_prefetch_thread"}}
+
+
+class _StubSftp:
+    def __init__(self):
+        self.n = 0
+        self.sock = None
+
+    def _async_request(self, fileobj, t, *arg):
+        self.n += 1
+        return self.n
+
+
+def _new_file():
+    f = SFTPFile(_StubSftp(), b"h", "r", -1)
+    f._closed = True          # nothing to tell a (non-existent) server at teardown
+    return f
+
+
+def make_ext_body(escn):
+    chunks, question = escn
+
+    def body(s):
+        f = _new_file()
+        box = {}
+
+        def asker():
+            box["answer"] = f._data_in_prefetch_requests(*question)
+        a = vthreading.Thread(target=f._prefetch_thread, args=(list(chunks), None))
+        b = vthreading.Thread(target=asker)
+        s.branching = True
+        s.line_points = True
+        a.start()
+        b.start()
+        a.join()
+        b.join()
+        s.branching = False
+        s.line_points = False
+        errs = [repr(t._vt_rec.obj) for t in (a, b) if t._vt_rec.obj is not None]
+        return box.get("answer"), errs, sorted(f._prefetch_extents.values())
+    return body
+
+
+def ext_allowed(escn):
+    chunks, question = escn
+    out = set()
+    for k in range(len(chunks) + 1):
+        f = _new_file()
+        for i, c in enumerate(chunks[:k]):
+            f._prefetch_extents[i + 1] = tuple(c)
+        out.add(f._data_in_prefetch_requests(*question))
+    return out
+
+
+def ext_verdict(escn, value):
+    answer, errs, table = value
+    if errs:
+        return "exception:%s:extent-bookkeeping-seam" % errs[0].split("(")[0]
+    if table != sorted(tuple(c) for c in escn[0]):
+        return "extent-table-wrong:extent-bookkeeping-seam"
+    if answer not in ext_allowed(escn):
+        return "covered-answer-matches-no-prefix-of-registrations:extent-bookkeeping-seam"
+    return None
+
+
+def run_ext(item, acc):
+    tier, escn, bound = item
+    seen = set()
+
+    def on_exec(ex):
+        acc.ev()
+        if ex.outcome != "ok":
+            acc.violation("harness:%s:extent-bookkeeping-seam" % ex.outcome, {"scn": repr(escn), "err": repr(ex.error)[:200]},
+                          {"ext": escn, "choices": list(ex.choices)})
+            return
+        if ex.value[0] not in seen:
+            seen.add(ex.value[0])
+            acc.nt(repr(("ext", escn, ex.value[0])))
+        v = ext_verdict(escn, ex.value)
+        if v:
+            acc.violation(v, {"scn": repr(escn), "answer": ex.value[0], "errors": ex.value[1], "choices": list(ex.choices)},
+                          {"ext": escn, "choices": list(ex.choices)})
+    res = explore.explore(make_ext_body(escn), bound, "preempt", cap=20000, on_exec=on_exec, sched_kw={"trace_files": EXT_TRACE})
+    acc.count("extent_seam_schedules", res.executions)
+    if res.capped:
+        acc.note("cap of 20000 hit ext %r" % (escn,))
+    if len(acc.samples) < 6:
+        acc.sample({"extent_seam": {"registered_chunks": escn[0], "question(offset,size)": escn[1]}, "preemption_bound": bound,
+                    "schedules": res.executions, "distinct_answers": sorted(map(repr, seen))})
+
+
 def main(tier):
     SP.scale(8)
     ck = core.Check(
@@ -441,6 +548,11 @@ def main(tier):
            for prog in ((("prefetch",), ("read", 20)), (("prefetch",), ("readv", ((3, 8), (20, 12)))),
                         (("readv", ((0, 12), (8, 5))),), (("prefetch",), ("read", 5), ("read", 20)))]
     ck.merge(core.pmap(two, run_two))
+    ext = [(tier, (chunks, q), 2) for chunks in (((0, 8), (8, 8)), ((0, 8), (8, 8), (16, 8)), ((8, 8), (0, 8)))
+           for q in ((0, 8), (3, 10), (0, 24), (12, 2))]
+    if tier == "quick":
+        ext = [e for e in ext if len(e[1][0]) == 2 or e[1][1] in ((3, 10), (0, 24))]
+    ck.merge(core.pmap(ext, run_ext))
     if any("cap of" in n for n in ck.acc.notes):
         ck.cap_hit("execution cap per scenario")
     ck.extra["bound"] = {"scenarios": len(scns), "bounding": "delay", "max_deviations": 1 if tier == "quick" else 2}
@@ -451,6 +563,11 @@ def main(tier):
 def replay(rec):
     SP.scale(8)
     r = rec["replay"]
+    if "ext" in r:
+        escn = (tuple(tuple(c) for c in r["ext"][0]), tuple(r["ext"][1]))
+        ex = explore.replay(make_ext_body(escn), r["choices"], "preempt", {"trace_files": EXT_TRACE})
+        print(ex.outcome, ex.error, ex.value, "allowed answers:", ext_allowed(escn))
+        return 1 if (ex.outcome != "ok" or ext_verdict(escn, ex.value)) else 0
     if "two" in r:
         t = r["two"]
         tscn = (t[0], t[1], tuple((op[0],) + tuple(tuple(tuple(c) for c in x) if isinstance(x, list) else x for x in op[1:]) for op in t[2]))
